@@ -668,6 +668,8 @@ void sim_mon_recv_entry(struct sim *s, size_t len, time_t timeout)
 }
 
 /* ------------------------------------------------------------------ state callback */
+void (*SIM_ON_ESTABLISHED)(struct sim *s);
+
 void sim_state_cb(const struct rtr_socket *sock, const enum rtr_socket_state state, void *cfgp, void *grpp)
 {
 	struct sim *s = cfgp;
@@ -685,6 +687,8 @@ void sim_state_cb(const struct rtr_socket *sock, const enum rtr_socket_state sta
 	if (state == RTR_ESTABLISHED) {
 		s->est_since_query = true;
 		judge_success(s);
+		if (SIM_ON_ESTABLISHED)
+			SIM_ON_ESTABLISHED(s);
 	}
 	s->last_state = state;
 }
